@@ -5,6 +5,7 @@ import (
 	"encoding/hex"
 	"encoding/json"
 	"fmt"
+	"github.com/decred/dcrd/dcrec/secp256k1/v4"
 	"strings"
 )
 
@@ -26,6 +27,12 @@ func coreC04(tier string) []RunSpec {
 			for rot := 0; rot < 3; rot++ { // 0 none, 1 restart with rotation, 2 interrupted rotation + restart
 				out = append(out, RunSpec{Profile: "core:forge", Params: map[string]int{"mut": mk, "via": via, "rot": rot}})
 			}
+		}
+	}
+	// coordinated forgeries over two inputs under one key
+	for v := 0; v < 3; v++ {
+		for via := 0; via < 2; via++ {
+			out = append(out, RunSpec{Profile: "core:forge-pair", Params: map[string]int{"pair": v, "via": via, "rot": 0}})
 		}
 	}
 	return out
@@ -305,6 +312,81 @@ func (m *MW) StepForge(forceMut, forceVia int) {
 	}
 }
 
+// StepForgePair: a coordinated forgery over two inputs signed with the same key (same keyset, same
+// amount): C1+D and C2-D for a point D. Each C is wrong, their sum is right - a verifier that checks
+// inputs in aggregate per key would be satisfied. variant 0: D = G; 1: D = random point; 2: C1 and C2
+// exchanged (each is a genuine signature, on the other secret).
+func (m *MW) StepForgePair(variant, via int) {
+	mint := m.pickMint()
+	ks := m.W.ActiveKeyset(mint)
+	var pair []*HProof
+	m.rc.Quietly(func() {
+		for i := 0; i < 2; i++ {
+			if ps := m.User.Fund(mint, 4); len(ps) == 1 {
+				pair = append(pair, ps[0])
+			}
+		}
+	})
+	if len(pair) != 2 || pair[0].ID != pair[1].ID || pair[0].Amount != pair[1].Amount {
+		return
+	}
+	c1, e1 := parsePoint(pair[0].C)
+	c2, e2 := parsePoint(pair[1].C)
+	if e1 != nil || e2 != nil {
+		return
+	}
+	var f1, f2 string
+	switch variant {
+	case 2:
+		f1, f2 = pair[1].C, pair[0].C
+	default:
+		d := mulG(scalarFromBytes([]byte{1}))
+		if variant == 1 {
+			d = mulG(randScalar())
+		}
+		dj := jac(d)
+		var nd Point
+		nd.Set(&dj)
+		nd.ToAffine()
+		nd.Y.Negate(1).Normalize()
+		j1, j2 := jac(c1), jac(c2)
+		var s1, s2 Point
+		secp256k1.AddNonConst(&j1, &dj, &s1)
+		secp256k1.AddNonConst(&j2, &nd, &s2)
+		f1, f2 = pointHex(fromJac(&s1)), pointHex(fromJac(&s2))
+	}
+	m.rc.Op(fmt.Sprintf("forge-pair variant=%d via=%d", variant, via))
+	m.rc.S.Probe("c04_forge_pair")
+	j1, j2 := pair[0].J(), pair[1].J()
+	j1["C"], j2["C"] = f1, f2
+	var r *Resp
+	m.rc.S.BeginEpisode()
+	m.rc.S.Run1(m.name("forgepair"), m.W.Ext, func() {
+		if via == 0 {
+			fee := m.feeFor(mint, pair)
+			outs := m.W.NewOutputs(Split(SumH(pair)-fee), ks.ID)
+			r = m.Atk.Post(mint, "/v1/swap", map[string]any{"inputs": []any{j1, j2}, "outputs": outsJ(outs)})
+			if r.OK() {
+				sigs, _ := r.Body["signatures"].([]any)
+				m.Atk.Purse[mint] = append(m.Atk.Purse[mint], m.W.Unblind(mint, outs, sigs)...)
+			}
+		} else {
+			inv := m.W.LN.NewExternalInvoice(2000)
+			if q, _ := m.Atk.ReqMeltQuote(mint, inv.Bolt11, 0); q != nil {
+				r = m.Atk.Post(mint, "/v1/melt/bolt11", map[string]any{"quote": q.ID, "inputs": []any{j1, j2}})
+			}
+		}
+	})
+	if r != nil && r.OK() {
+		// the Book has judged it (C04.forged_accepted); the secrets are gone
+		m.markSpent(mint, pair)
+		return
+	}
+	m.rc.Nontrivial = true
+	// a rejected forgery changes nothing: the genuine pair is still accepted
+	m.checkStillSpendable(mint, pair, "forge-pair")
+}
+
 func runC04(rc *RunCtx) {
 	T := rc.T
 	fees := []uint64{0, 100, 1000}
@@ -333,6 +415,17 @@ func runC04(rc *RunCtx) {
 		if rc.P("rot", 0) == 0 && T.Chance("irot", 1, 10) {
 			// the key material of every keyset must survive an interrupted rotation + restart
 			m.StepRotateInterrupted()
+			return
+		}
+		if fp := rc.P("pair", -1); fp >= 0 || (forceMut < 0 && T.Chance("forge.pair", 1, 8)) {
+			if fp < 0 {
+				fp = T.Choose("forge.pair.variant", 3)
+			}
+			via := forceVia
+			if via < 0 {
+				via = T.Choose("forge.pair.via", 2)
+			}
+			m.StepForgePair(fp, via)
 			return
 		}
 		if i%2 == 0 || T.Chance("forge", 1, 2) {
